@@ -21,7 +21,7 @@ META = {
     "ready": True,
     "category": "proof",
     "technique": "Lean 4 theorems about the symbol-map / slot-recycler model (roll-back restores, recycler closure, scan-list coverage from a regenerated table) + differential histories real Engine vs specification",
-    "level_text": "Proved for all inputs (SteelVerif/C06/Props.lean): the recycler's scan list (regenerated from closed.rs on every run) covers every op code that indexes the global vector; SymbolMap.get after add; roll_back after any sequence of definitions (incl. repeated names) restores map, values and shadow list when no recycled slot was reused; the recycler's fixed point never frees a slot mentioned by the value of any surviving slot (so freed slots are unreachable from live code). The refinement of whole evaluation histories (slots refine binding cells) is NOT proved; it is checked by running generated histories (define / redefine / set! / calls / compile-time and run-time failures, enough redefinitions to trigger slot recycling) on one real Engine against the executable specification S, and the real SymbolMap against the model on random unit-level operation sequences.",
+    "level_text": "Proved for all inputs (SteelVerif/C06/Props.lean): the recycler's scan list (regenerated from closed.rs on every run) covers every op code that indexes the global vector; SymbolMap.get after add; roll_back after any sequence of definitions (incl. repeated names) restores map, values, shadow list and free list when no recycled slot was reused (Rollback.lean: rollback_restores_partial for every well-formed map, reachable_wf / rollback_restores_reachable for every state built by add / roll_back; the unguarded statement is proved false — not_rollbackRestores, the witness is finding K06c); the recycler's fixed point never frees a slot mentioned by the value of any surviving slot (so freed slots are unreachable from live code). The refinement of whole evaluation histories (slots refine binding cells) is NOT proved; it is checked by running generated histories (define / redefine / set! / calls / compile-time and run-time failures, enough redefinitions to trigger slot recycling) on one real Engine against the executable specification S, and the real SymbolMap against the model on random unit-level operation sequences.",
     "level_note": "Trusted: Lean kernel, the translator regexes, harness/driver/comparison. Hand list of global-indexing op codes (those the compiler emits in the jit2 configuration). History-level refinement and the compiler's choice of op codes rest on the differential run only.",
 }
 
@@ -303,7 +303,7 @@ def run(ctx):
     rc, out = C.sh(["python3", os.path.join(C.VERIF, "translate", "c06_scan.py")], timeout=60)
     translator_ok = rc == 0
     ctx.log("translator: " + out.strip()[-200:])
-    pr = C.prove(ctx, "C06", ["c06driver"])
+    pr = C.prove(ctx, "C06", ["SteelVerif.C06.Rollback", "c06driver"])
     ok, log = C.build_harness(ctx, ["c06"])
     if not ok or not os.path.exists(C.driver_path("c06driver")):
         ctx.violation("C06-build.txt", "harness or driver does not build:\n" + log + pr["log"][-2000:], no_input=True)
@@ -339,7 +339,7 @@ def run(ctx):
                       no_input=True)
     ctx.coverage = {
         "obligations": pr["obligations"], "discharged": pr["discharged"],
-        "checker_cmd": "cd lean && lake build SteelVerif.C06.Props && lake env lean SteelVerif/C06/Audit.lean",
+        "checker_cmd": "cd lean && lake build SteelVerif.C06.Props SteelVerif.C06.Rollback && lake env lean SteelVerif/C06/Audit.lean",
         "trusted_base": C.TRUSTED_BASE + ["translate/c06_scan.py (regex extraction of the recycler's op-code match)",
                                           "hand list of global-indexing op codes in Props.lean"],
         "evaluations": stats["evaluations"], "distinct_nontrivial": len(stats["seen"]),
